@@ -1,7 +1,7 @@
 #!/bin/bash
 # usage: seed_verify.sh <ID>   -- confirms a seeded change in the scratch worktree /tmp/seed/<ID>:
 #   demo passes on the pristine tree, the test suite passes with the change, demo fails with the change.
-id=$1; wt=/tmp/seed/$id; demo=/tmp/seed/$id.demo
+id=$1; root=${SEED_ROOT:-/tmp/seed}; wt=$root/$id; demo=$root/$id.demo
 export CARGO_NET_OFFLINE=true
 cd $wt || exit 2
 git checkout -q -- . ; git clean -fdq -e target; git checkout -q --detach main || exit 2
